@@ -107,6 +107,7 @@ def has_ignore_next_line_marker(line: str) -> bool:
     Returns:
         True if line has ignore-next-line marker
     """
+    line = line.lower()  # directives are case-insensitive, like every other marker here
     return (
         "# thailint: ignore-next-line" in line
         or "# design-lint: ignore-next-line" in line
